@@ -147,6 +147,7 @@ package value
 //@     ite(a.typ == boolT && b.typ == boolT, (a.morph != 0) == (b.morph != 0),
 //@     ite(a.typ == stringT && b.typ == stringT, a.s() == b.s(),
 //@     (a.typ == nilT && b.typ == nilT) || (a.typ == functionT && b.typ == functionT)))))
+//@ ghost weq(a Type, b Type) bool
 //@ func (*Type).StrictEq [C11,C05]
 //@   requires t != nil && valid(*t) && valid(b)
 //@   loop 0 invariant[ri] -1 <= rangeindex && rangeindex < len(t.a())
@@ -159,7 +160,18 @@ package value
 //@   ensures[function]   t.typ == functionT && b.typ == functionT ==> result0 == false && result1 == nil
 //@   ensures[arr_len]    t.typ == arrayT && b.typ == arrayT && len(t.a()) != len(b.a()) ==> result0 == false && result1 == nil
 //@   ensures[no_error_true] result0 ==> result1 == nil
-//@   loop 0 invariant[ri] -1 <= rangeindex && rangeindex < len(t.a())
+// Deep equality: weq is the documented relation (arrays are equal iff they have the same length and
+// all elements are equal under the same relation; otherwise the scalar rule, with int == float of the
+// same value and functions never equal). Its defining equations are stated for this operand pair; the
+// recursive calls contribute the relation on the elements.
+//@   assumes[def_nil]    anyNil(*t, b) ==> !weq(*t, b)
+//@   assumes[def_scalar] !anyNil(*t, b) && !(t.typ == arrayT && b.typ == arrayT) ==> weq(*t, b) == weakScalar(*t, b)
+//@   assumes[def_array_t] t.typ == arrayT && b.typ == arrayT && len(t.a()) == len(b.a()) && (forall k :: 0 <= k && k < len(t.a()) ==> weq(t.a()[k], b.a()[k])) ==> weq(*t, b)
+//@   assumes[def_array_len] t.typ == arrayT && b.typ == arrayT && weq(*t, b) ==> len(t.a()) == len(b.a())
+//@   assumes[def_array_f] forall k :: t.typ == arrayT && b.typ == arrayT && weq(*t, b) && 0 <= k && k < len(t.a()) ==> weq(t.a()[k], b.a()[k])
+//@   ensures[deep_true;C11]  result0 ==> weq(*t, b)
+//@   ensures[deep_false;C11] !result0 && result1 == nil ==> !weq(*t, b)
+//@   loop 0 invariant[ri] -1 <= rangeindex && rangeindex < len(t.a()) && (forall k :: 0 <= k && k <= rangeindex ==> weq(old(t.a())[k], b.a()[k]))
 //
 //@ func (Type).Eq [C11,C05]
 //@   requires valid(t) && valid(b) && (op == bytecode.EQ || op == bytecode.NE)
